@@ -362,7 +362,7 @@ func TestC15(t *testing.T) {
 		t.Fatalf("actionlint binary not built: %v", err)
 	}
 	hx.Main(t, "C15", func(r *hx.Run) {
-		r.Rule = "temporary world: a repository (optionally nested two levels down, optionally next to a sibling repository whose name shares its prefix and whose configuration ignores everything) with a workflow producing 0-8 distinct diagnostics, a configuration with 0-3 `paths` globs (matching all yaml, the workflows directory, the exact file, nothing) each with ignore regexes, and 0-3 -ignore regexes; regexes are escaped fragments of the unfiltered messages (matching none/some/all), also with inline flags such as (?i). Each world is run through the built actionlint binary from 16 (cwd, path spelling) combinations: repository root / parent / nested / unrelated directory x relative / ./ / absolute / no argument, plus four spellings through a symbolic link to the repository root; when a sibling repository exists, also the observed file together with a file of the sibling in one invocation (both orders). Oracle: output = unfiltered list (same world without configuration and -ignore) minus messages matched by an applicable pattern (glob matched against the repository-relative path by the harness), identical for all combinations; exit status 1 iff diagnostics remain, 0 iff none, 3 for an invalid regex, 2 for an invalid flag. Non-trivial = >= 1 diagnostic removed and >= 1 kept, or a matching `paths` glob with cwd != repository root; distinct = case hash."
+		r.Rule = "temporary world: a repository (optionally nested two levels down, optionally next to a sibling repository whose name shares its prefix and whose configuration ignores everything) with a workflow producing 0-8 distinct diagnostics (now and then a file that is not YAML, not a mapping, or has no jobs), a configuration with 0-3 `paths` globs (matching all yaml, the workflows directory, the exact file, nothing) each with ignore regexes, and 0-3 -ignore regexes; regexes are escaped fragments of the unfiltered messages (matching none/some/all), also with inline flags such as (?i). Each world is run through the built actionlint binary from 16 (cwd, path spelling) combinations: repository root / parent / nested / unrelated directory x relative / ./ / absolute / no argument, plus four spellings through a symbolic link to the repository root; when a sibling repository exists, also the observed file together with a file of the sibling in one invocation (both orders). Oracle: output = unfiltered list (same world without configuration and -ignore) minus messages matched by an applicable pattern (glob matched against the repository-relative path by the harness), identical for all combinations; exit status 1 iff diagnostics remain, 0 iff none, 3 for an invalid regex, 2 for an invalid flag. Non-trivial = >= 1 diagnostic removed and >= 1 kept, or a matching `paths` glob with cwd != repository root; distinct = case hash."
 		r.Assumptions = []string{"file names are plain ASCII", "regexes are built from escaped message fragments so that the reference (Go regexp on messages) cannot disagree about regexp semantics"}
 		r.Check(t, "worlds", hx.N(150, 4000), func(rt *rapid.T) {
 			var wfb strings.Builder
@@ -377,6 +377,18 @@ func TestC15(t *testing.T) {
 				wfb.WriteString(rapid.SampledFrom(c15Steps).Draw(rt, "step"))
 			}
 			c := &c15Case{Workflow: wfb.String()}
+			// now and then a file whose diagnostics come from the YAML / workflow-structure level
+			switch rapid.IntRange(0, 15).Draw(rt, "brokenfile") {
+			case 0:
+				c.Workflow = "on: push\njobs:\n  a:\n   runs-on: ubuntu-latest\n  - oops: [\n" // not YAML
+				r.Class("file-is-not-yaml")
+			case 1:
+				c.Workflow = "- a\n- b\n" // YAML, not a workflow
+				r.Class("file-is-not-a-mapping")
+			case 2:
+				c.Workflow = "on: push\nzz-unknown: 1\n" // no jobs
+				r.Class("file-without-jobs")
+			}
 			c.RepoDir = rapid.SampledFrom([]string{"repo", "repo", "deep/er/repo"}).Draw(rt, "repodir")
 			if rapid.IntRange(0, 2).Draw(rt, "sibling") == 0 {
 				c.Sibling = c.RepoDir + rapid.SampledFrom([]string{"2", "-old", "x/y"}).Draw(rt, "sibname")
